@@ -8,6 +8,7 @@ require (
 	github.com/bufbuild/buf v0.0.0
 	github.com/bufbuild/protocompile v0.14.1
 	github.com/google/uuid v1.6.0
+	github.com/klauspost/compress v1.18.0
 	golang.org/x/crypto v0.37.0
 	google.golang.org/protobuf v1.36.6
 )
@@ -46,7 +47,6 @@ require (
 	github.com/google/go-containerregistry v0.20.3 // indirect
 	github.com/google/pprof v0.0.0-20250403155104-27863c87afa6 // indirect
 	github.com/jdx/go-netrc v1.0.0 // indirect
-	github.com/klauspost/compress v1.18.0 // indirect
 	github.com/klauspost/pgzip v1.2.6 // indirect
 	github.com/mattn/go-isatty v0.0.20 // indirect
 	github.com/mitchellh/go-homedir v1.1.0 // indirect
